@@ -188,6 +188,8 @@ fn run(line: &str) -> String {
 mod ops;
 
 fn main() {
+    // panics are caught and reported on stdout; keep stderr quiet
+    std::panic::set_hook(Box::new(|_| {}));
     let stdin = std::io::stdin();
     let stdout = std::io::stdout();
     let mut out = stdout.lock();
